@@ -314,6 +314,217 @@ pub fn run(ctx: &Ctx) -> Outcome {
         }
         co
     });
+    // curves thousands of pixels long whose turning point in y (or x) lies within a few thousandths of their
+    // parameter range from one end (the control point overshoots that end by a few pixels); the surface looks at
+    // the middle of the curve, where a curve whose overshoot was handled wrongly is off by half the overshoot
+    run_cases(ctx, &mut out, SubSpec { name: "long_curves_turning_right_at_an_end", cases: ctx.n(2_500, 100_000), exhaustive: false, max_secs: secs }, |i, want, st| {
+        let mut rng = ctx.rng("long_curves_turning_right_at_an_end", i);
+        let w = rng.int(24, 48) as i32;
+        let h = rng.int(24, 48) as i32;
+        let len = rng.range(800., 7000.);
+        // the curve runs along the "long" axis from -f*len to (1-f)*len, where it passes the middle of the surface
+        let f = rng.range(0.2, 0.8);
+        let a = -f * len;
+        let c = a + len;
+        let over = rng.range(0.3, (len / 150.).min(45.));
+        let b = a - over;
+        // across: the curve runs diagonally (a displacement along the long axis moves it sideways too), gently bent
+        let run = len * rng.range(0.3, 1.1) * if rng.chance(0.5) { 1. } else { -1. };
+        let u0 = -f * run;
+        let u2 = u0 + run;
+        let u1 = u0 + run * rng.range(0.3, 0.7);
+        let cubic = rng.chance(0.3);
+        let b2 = if cubic { rng.range(a + len * 0.3, a + len * 0.9) } else { 0. };
+        let u3 = u0 + run * rng.range(0.5, 0.9);
+        // long axis position -> parameter at the middle of the surface (bisection on the monotonic part)
+        let along = |t: f64| -> f64 {
+            if cubic {
+                let m = 1. - t;
+                m * m * m * a + 3. * m * m * t * b + 3. * m * t * t * b2 + t * t * t * c
+            } else {
+                let m = 1. - t;
+                m * m * a + 2. * m * t * b + t * t * c
+            }
+        };
+        let across = |t: f64| -> f64 {
+            if cubic {
+                let m = 1. - t;
+                m * m * m * u0 + 3. * m * m * t * u1 + 3. * m * t * t * u3 + t * t * t * u2
+            } else {
+                let m = 1. - t;
+                m * m * u0 + 2. * m * t * u1 + t * t * u2
+            }
+        };
+        let (mut lo, mut hi) = (0.05f64, 1.0f64);
+        for _ in 0..60 {
+            let mid = (lo + hi) / 2.;
+            if along(mid) < 0. { lo = mid } else { hi = mid }
+        }
+        let shift = across(lo);
+        let vertical = rng.chance(0.7);
+        let reversed = rng.chance(0.4);
+        let flip = rng.chance(0.5);
+        // device point for (along, across)
+        let (mw, mh) = (w as f64 / 2. + rng.range(-6., 6.), h as f64 / 2. + rng.range(-6., 6.));
+        let dev = |al: f64, ac: f64| -> (f32, f32) {
+            let al = if flip { -al } else { al };
+            if vertical { ((ac - shift + mw) as f32, (al + mh) as f32) } else { ((al + mw) as f32, (ac - shift + mh) as f32) }
+        };
+        let side = if rng.chance(0.5) { 2500. } else { -2500. };
+        let (p0, p1, p2) = (dev(a, u0), dev(b, u1), dev(c, u2));
+        let p1b = dev(b2, u3);
+        let (q0, q2) = (dev(a, u0 + side), dev(c, u2 + side));
+        let mut pb = PathBuilder::new();
+        if !reversed {
+            pb.move_to(p0.0, p0.1);
+            if cubic { pb.cubic_to(p1.0, p1.1, p1b.0, p1b.1, p2.0, p2.1) } else { pb.quad_to(p1.0, p1.1, p2.0, p2.1) }
+            pb.line_to(q2.0, q2.1);
+            pb.line_to(q0.0, q0.1);
+        } else {
+            pb.move_to(p2.0, p2.1);
+            if cubic { pb.cubic_to(p1b.0, p1b.1, p1.0, p1.1, p0.0, p0.1) } else { pb.quad_to(p1.0, p1.1, p0.0, p0.1) }
+            pb.line_to(q0.0, q0.1);
+            pb.line_to(q2.0, q2.1);
+        }
+        if rng.chance(0.5) {
+            pb.close();
+        }
+        let mut path = pb.finish();
+        if rng.chance(0.4) {
+            path.winding = Winding::EvenOdd;
+        }
+        let t = Transform::identity();
+        let aa = rng.chance(0.75);
+        let as_clip = rng.chance(0.2);
+        let mut dt = DrawTarget::new(w, h);
+        let cov: Vec<u8> = if as_clip {
+            dt.push_clip(&path);
+            let c = effective_clip(&mut dt, w, h);
+            dt.pop_clip();
+            c
+        } else {
+            dt.fill(&path, &Source::Solid(WHITE), &opts(BlendMode::SrcOver, 1., aa));
+            dt.get_data().iter().map(|p| (p >> 24) as u8).collect()
+        };
+        // a curve this long needs more samples for the same accuracy of the reference outline
+        let subs = transform_subs(&subpaths(&path, 2048), &T64::from(&t));
+        let res = check_fill_subs(&cov, w, h, &subs, path.winding == Winding::EvenOdd, 1.0);
+        st.add("long_curve_px_inside_asserted", res.inside);
+        st.add("long_curve_px_outside_asserted", res.outside);
+        st.add(if over / (len + 2. * over) < 1. / 256. { "long_curves_turning_within_1_256th_of_an_end" } else { "long_curves_turning_further_in" }, 1);
+        let mut co = CaseOut::default();
+        co.hash = crate::prng::hash_str(&format!("{:?}{}{}", path, aa, as_clip));
+        co.nontrivial = res.inside > 0 && res.outside > 0;
+        if let Some(v) = res.violation {
+            co.viol("C08", format!("{} of a long curve: {}", if as_clip { "push_clip" } else { "fill" }, v));
+        }
+        if want || !co.violations.is_empty() {
+            let mut d = J::obj();
+            d.set("surface", J::s(&format!("{}x{}", w, h)));
+            d.set("path", J::s(&path_str(&path)));
+            d.set("antialias", J::Bool(aa));
+            d.set("used_as_clip_path", J::Bool(as_clip));
+            co.desc = Some(d);
+        }
+        co
+    });
+    // subpaths that end a hair's breadth (1e-6 .. 3e-4 px) away from where they started, with the start on or next to
+    // a sample row, and another shape to their right: the closing edge is tiny but it is an edge, and without it
+    // the winding count of that sample row is off all the way to the next shape
+    run_cases(ctx, &mut out, SubSpec { name: "subpaths_closed_up_to_float_noise", cases: ctx.n(6_000, 200_000), exhaustive: false, max_secs: secs }, |i, want, st| {
+        let mut rng = ctx.rng("subpaths_closed_up_to_float_noise", i);
+        let w = rng.int(24, 48) as i32;
+        let h = rng.int(12, 40) as i32;
+        let mut pb = PathBuilder::new();
+        // the start: on a quarter-pixel row (where the sample rows are), an eighth, or anywhere
+        let sy = match rng.below(4) {
+            0 | 1 => rng.int(8, 4 * h as i64 - 8) as f32 / 4.,
+            2 => rng.int(16, 8 * h as i64 - 16) as f32 / 8.,
+            _ => rng.range(2., h as f64 - 2.) as f32,
+        };
+        let sx = rng.range(2., 10.) as f32;
+        let noise = |rng: &mut Rng| -> f32 {
+            let m = *rng.pick(&[1e-6f32, 4e-6, 1e-5, 3e-5, 1e-4, 3e-4]);
+            if rng.chance(0.5) { m } else { -m }
+        };
+        let arc = rng.chance(0.35);
+        if arc {
+            // a full turn of PathBuilder::arc: its end is the start up to rounding
+            let r = rng.range(2., 6.) as f32;
+            let sweep = if rng.chance(0.5) { 6.2831855f32 } else { -6.2831855 };
+            pb.move_to(sx + r, sy);
+            pb.arc(sx, sy, r, 0., sweep);
+        } else {
+            pb.move_to(sx, sy);
+            let n = rng.int(2, 4);
+            for k in 0..n {
+                let a = (k as f64 + 1.) / (n as f64 + 1.) * 6.28 + rng.range(-0.3, 0.3);
+                let r = rng.range(2., 7.);
+                let (x, y) = ((sx as f64 + 3. + r * a.cos()) as f32, (sy as f64 + r * a.sin() * if k % 2 == 0 { 1. } else { -1. }) as f32);
+                if rng.chance(0.3) { pb.quad_to(x + 1., y - 1., x, y) } else { pb.line_to(x, y) }
+            }
+            let (ex, ey) = (sx + if rng.chance(0.5) { 0. } else { noise(&mut rng) }, sy + noise(&mut rng));
+            pb.line_to(ex, ey);
+        }
+        match rng.below(3) {
+            0 => pb.close(),
+            _ => {} // closed by the fill (implicitly at the next MoveTo or at the end)
+        }
+        // the shape to the right
+        let x1 = rng.range(w as f64 * 0.55, w as f64 - 6.) as f32;
+        if rng.chance(0.8) {
+            let (ya, yb) = (rng.range(-2., 4.) as f32, rng.range(h as f64 - 4., h as f64 + 2.) as f32);
+            pb.move_to(x1, ya);
+            if rng.chance(0.5) {
+                pb.line_to(x1 + 4., ya);
+                pb.line_to(x1 + 4., yb);
+                pb.line_to(x1, yb);
+            } else {
+                pb.line_to(x1, yb);
+                pb.line_to(x1 + 4., yb);
+                pb.line_to(x1 + 4., ya);
+            }
+            pb.close();
+        }
+        let mut path = pb.finish();
+        if rng.chance(0.4) {
+            path.winding = Winding::EvenOdd;
+        }
+        let t = if rng.chance(0.7) { Transform::identity() } else { Transform::translation(rng.int(-2, 2) as f32, rng.int(-8, 8) as f32 / 4.) };
+        let aa = rng.chance(0.7);
+        let as_clip = rng.chance(0.2);
+        let mut dt = DrawTarget::new(w, h);
+        dt.set_transform(&t);
+        let cov: Vec<u8> = if as_clip {
+            dt.push_clip(&path);
+            let c = effective_clip(&mut dt, w, h);
+            dt.pop_clip();
+            c
+        } else {
+            dt.fill(&path, &Source::Solid(WHITE), &opts(BlendMode::SrcOver, 1., aa));
+            dt.get_data().iter().map(|p| (p >> 24) as u8).collect()
+        };
+        let res = check_fill(&cov, w, h, &path, &t, 1.0);
+        st.add("almost_closed_px_inside_asserted", res.inside);
+        st.add("almost_closed_px_outside_asserted", res.outside);
+        st.add(if arc { "almost_closed_full_turn_arcs" } else { "almost_closed_outlines" }, 1);
+        let mut co = CaseOut::default();
+        co.hash = crate::prng::hash_str(&format!("{:?}{:?}{}{}", path, t, aa, as_clip));
+        co.nontrivial = res.inside > 0 && res.outside > 0;
+        if let Some(v) = res.violation {
+            co.viol("C08", format!("{} of an almost closed outline: {}", if as_clip { "push_clip" } else { "fill" }, v));
+        }
+        if want || !co.violations.is_empty() {
+            let mut d = J::obj();
+            d.set("surface", J::s(&format!("{}x{}", w, h)));
+            d.set("path", J::s(&path_str(&path)));
+            d.set("transform", J::s(&transform_str(&t)));
+            d.set("antialias", J::Bool(aa));
+            d.set("used_as_clip_path", J::Bool(as_clip));
+            co.desc = Some(d);
+        }
+        co
+    });
     out.assume("in the mixed random paths arcs are evaluated through the quadratic control points PathBuilder::arc emitted (their own geometry is C20's subject); the arc_shapes workload judges arcs against the true circles");
     out
 }
